@@ -246,6 +246,28 @@ pub fn on_end(o: &mut Observer, end_us: u64) {
     } else if check_e2e {
         o.probe("C13.judged-end-to-end");
     }
+    // C11, last sentence: every batch a node RECEIVES is stored under the hash of its exact
+    // serialized bytes. Judged in the C11 scenarios only (healthy network: every frame made
+    // readable is read), for frames delivered at least 2 s before the end.
+    if profile == "C11" {
+        let frames = o.ext.batch_frames_delivered.clone();
+        let mut missing: Option<(usize, Digest, u64)> = None;
+        let mut checked = 0u64;
+        for (node, d, t) in frames {
+            if !o.is_honest_node(node) || o.ext.crashed[node].is_some() || t + 2_000_000 > end_us {
+                continue;
+            }
+            checked += 1;
+            let ok = o.nodes[node].store.get(&d.0.to_vec()).map_or(false, |(_, vh, _)| *vh == d);
+            if !ok && missing.is_none() {
+                missing = Some((node, d, t));
+            }
+        }
+        o.probe_n("C11.received-batch-frames-checked", checked);
+        if let Some((node, d, t)) = missing {
+            o.violate("C11", "received-batch-not-stored-under-its-hash", Some(node), format!("node {} was sent a batch frame with hash {} at {} us but its store has no entry holding exactly those bytes under that key", node, crate::ident::short(&d), t));
+        }
+    }
     let mut viol: Vec<(&str, &str, Option<usize>, String)> = Vec::new();
     STATE.with(|s| {
         let mut st = s.borrow_mut();
